@@ -236,6 +236,23 @@ def exactly_taken_guard(body, origin_bb, next_bb):
                 continue
             if any(o_.get("k") in ("copy", "move") and o_["place"]["p"] and reads_payload(o_) for o_ in ops):
                 readers.append(i)
+    def reaches(op, depth=0):
+        """the operand is the next() result or something computed from it by calls taking it as first argument"""
+        for r in prov(body, op):
+            if r.kind == "call" and r.site == next_bb:
+                return True
+            if r.kind == "call" and r.site is not None and depth < 6 and body.term(r.site)["args"] and \
+                    reaches(body.term(r.site)["args"][0], depth + 1):
+                return True
+        return False
+    for i, t in body.calls():
+        if i == next_bb:
+            continue
+        nm = (callee_def(t) or "").rsplit("::", 1)[-1]
+        if nm in ("is_some", "is_none"):
+            continue
+        if any(a.get("k") in ("copy", "move") and reaches(a) for a in t["args"]):
+            readers.append(i)       # handed to a combinator / `?` / a conversion: what it holds matters there
     if not readers:
         return "the element taken is never looked at (only whether there is one)"
     if not later:
